@@ -174,6 +174,7 @@ type enc struct {
 	syms    map[string]int
 	nodeCand map[Term]nodeCand
 	typeOfArg map[*ssa.Call]Term
+	typeOfStatic map[*ssa.Call]string
 	storesOnly bool
 	dropAt  bool
 	inlineCt *Contract
@@ -654,7 +655,12 @@ func (e *enc) locOf(v ssa.Value) *Loc {
 func (e *enc) readIn(mem map[string]Term, l *Loc) Term {
 	t, ok := mem[l.base]
 	if !ok {
-		t = e.mem[l.base]
+		// a component created after the snapshot was taken held its initial value then
+		if v, has := e.init[l.base]; has {
+			t = v
+		} else {
+			t = e.mem[l.base]
+		}
 	}
 	if l.ref != "" {
 		if hs, ok := e.heapStore[t]; ok && hs[0] == l.ref {
